@@ -6,3 +6,4 @@ import RSVerif.Properties.C09
 #print axioms RS.default_reset_rate
 #print axioms RS.ops_ignore_kind
 #print axioms RS.source_default_codec_is_rule
+#print axioms RS.source_api_layers_delegate
